@@ -8,10 +8,10 @@ var propRuleTable = map[string][2][]string{
 	"C08": {{"R-MEMO-KEY", "R-UNFOLD-GUARD", "R-CONTRACTIVE-GATE"}, {}},
 	"C09": {{"R-PHASE-STOP", "R-NO-DEFERRED-SUCCESS", "R-UNFOLDED-POLARITY", "R-ERR-BEFORE-USE", "R-UNFOLD-GUARD", "R-CONTRACTIVE-GATE", "R-UNSET-REJECTED"}, {}},
 	"C10": {{"R-DEAD-SET", "R-REC-COMPLETE", "R-MODE-UNIFORM", "R-CONTRACTIVE-GATE", "R-UNSET-REJECTED", "R-SHIFT-LEGAL"}, {}},
-	"C11": {{"R-LOOP-EOF", "R-GENERATED", "R-PARSE-ERR"}, {}},
-	"C12": {{"R-END-MARKER", "R-GENERATED", "R-KIND-EXH", "R-PARSE-ERR"}, {}},
+	"C11": {{"R-LOOP-EOF", "R-COMMENT-DFA", "R-GENERATED", "R-PARSE-ERR"}, {}},
+	"C12": {{"R-END-MARKER", "R-COMMENT-DFA", "R-GENERATED", "R-KIND-EXH", "R-PARSE-ERR"}, {}},
 	"C13": {{"R-ATOMIC", "R-SPAWN-OWNERSHIP", "R-COPY-PER-USE", "R-MONITOR-COPY", "R-GLOBALS"}, {}},
-	"C15": {{"R-PRINT-GRAMMAR", "R-GENERATED"}, {}},
+	"C15": {{"R-PRINT-GRAMMAR", "R-PRINT-SLOTS", "R-GENERATED"}, {}},
 	"C17": {{"R-MODE-TABLES", "R-SPELLINGS"}, {}},
 	"C18": {{"R-CLI-GATE"}, {}},
 	"C19": {{"R-GLOBALS", "R-FRESH-PARSE", "R-REINIT", "R-COPY-PER-USE", "R-PHASE-STOP"}, {}},
